@@ -15,9 +15,9 @@ func rulesC02(c *Ctx) {
 	// ---- C02.a checked increment only
 	c.Rule("C02.a", "the unchecked Queue.IncAllocatedResource is only used by RM-forced paths and is unreachable from the scheduling roots; Queue.allocatedResource is written only by the three ledger methods")
 	c.whoMayCall("C02.a", "objects.Queue.IncAllocatedResource", 4, map[string]string{
-		"scheduler.PartitionContext.UpdateAllocation":       "recovered / externally placed allocation",
-		"objects.Application.UpdateAllocationResources":     "in-place resource change requested by the RM",
-		"objects.Queue.IncAllocatedResource":                "recursion to the parent",
+		"scheduler.PartitionContext.UpdateAllocation":   "recovered / externally placed allocation",
+		"objects.Application.UpdateAllocationResources": "in-place resource change requested by the RM",
+		"objects.Queue.IncAllocatedResource":            "recursion to the parent",
 	})
 	c.notReachable("C02.a", schedulingRoots, "objects.Queue.IncAllocatedResource")
 	c.fieldWritersConfined("C02.a", "objects.Queue.allocatedResource", 4, func(w FieldWrite) (bool, string) {
@@ -44,7 +44,7 @@ func rulesC02(c *Ctx) {
 		f := p.Field("objects.Queue.allocatedResource")
 		n := 0
 		for _, w := range p.FieldWrites(f) {
-			if w.Fn != fn {
+			if !p.inFn(w.Fn, fn) {
 				continue
 			}
 			n++
@@ -165,14 +165,16 @@ func rulesC02(c *Ctx) {
 		calls := p.callsIn(fn, "objects.Application.tryNode", "objects.Application.tryNodesNoReserve")
 		for _, call := range calls {
 			st := p.StateAt(fn, call)
-			askArg := call.Args[0]
-			if p.IsCall(call, "objects.Application.tryNode") {
-				askArg = call.Args[1]
+			askArg := p.argOfType(call, "objects.Allocation")
+			if askArg == nil {
+				c.Check("C02.d", "headrooms before "+shortFn(p.CalleeName(call))+" (reserved)", call, false, "%s is not called with exactly one allocation", p.CalleeName(call))
+				continue
 			}
 			askT := T(askArg, st)
+			// checkHeadRooms(...) == true implies the FitInMaxUndef tests it is made of, with its parameters bound to the arguments
 			ok := p.Holds(st, p.CallAtom(true, func(cl *ast.CallExpr, a Atom) bool {
-				return len(cl.Args) == 3 && p.Same(a.term(cl.Args[0]), askT) && p.isParam(fn, cl.Args[2], 0)
-			}, "objects.Application.checkHeadRooms"))
+				return Recv(cl) != nil && p.isParamTerm(fn, a.term(Recv(cl)), 0) && len(cl.Args) == 1 && p.IsResOf(a.term(cl.Args[0]), askT)
+			}, "resources.Resource.FitInMaxUndef"))
 			c.Check("C02.d", "headrooms before "+shortFn(p.CalleeName(call))+" (reserved)", call, ok, "%s reached without checkHeadRooms(ask, userHeadroom, headRoom); facts: %v", p.CalleeName(call), p.FactStrings(st))
 		}
 		c.Floor("C02.d", "bind attempts in tryReservedAllocate", len(calls), 2)
@@ -189,18 +191,23 @@ func rulesC02(c *Ctx) {
 				continue
 			}
 			seen := map[int]bool{}
+			askIdx := -1
+			for i := 0; i < 3; i++ {
+				if id := paramIdent(fn, i); id != nil && p.TypeName(p.TypeOf(id)) == "objects.Allocation" {
+					askIdx = i
+				}
+			}
 			for _, side := range []ast.Expr{b.X, b.Y} {
 				cl, isC := unparen(side).(*ast.CallExpr)
-				if isC && p.IsCall(cl, "resources.Resource.FitInMaxUndef") && len(cl.Args) == 1 && p.IsResOf(T(cl.Args[0], ex.State), T(paramIdent(fn, 0), ex.State)) {
-					if p.isParam(fn, Recv(cl), 1) {
-						seen[1] = true
-					}
-					if p.isParam(fn, Recv(cl), 2) {
-						seen[2] = true
+				if isC && askIdx >= 0 && p.IsCall(cl, "resources.Resource.FitInMaxUndef") && len(cl.Args) == 1 && p.IsResOf(T(cl.Args[0], ex.State), T(paramIdent(fn, askIdx), ex.State)) {
+					for i := 0; i < 3; i++ {
+						if i != askIdx && p.isParam(fn, Recv(cl), i) {
+							seen[i] = true
+						}
 					}
 				}
 			}
-			ok = seen[1] && seen[2]
+			ok = len(seen) == 2
 		}
 		c.Check("C02.d", "checkHeadRooms tests user and queue headroom", fn.Decl, ok, "checkHeadRooms is no longer userHeadroom.FitInMaxUndef(res) && headRoom.FitInMaxUndef(res)")
 	}
